@@ -142,6 +142,13 @@ def scalar64 (tag : Nat) : Codec UInt64 where
   dec bs := (checkType tag bs).bind fun _ r => (getU64 r).bind fun n r => .ok (UInt64.ofNat n) r
   fits _ := true
 
+/-- `std::uint32_t` where the model keeps the quantity as a `Nat` (shape
+dimensions, counts): the Writer side is `static_cast<std::uint32_t>(n)`. -/
+def nat32 : Codec Nat where
+  enc n := 0xce :: be32 n
+  dec bs := (checkType 0xce bs).bind fun _ r => getU32 r
+  fits _ := true
+
 def u8 := scalar8 0xcc
 def u16 := scalar16 0xcd
 def u32 := scalar32 0xce
@@ -330,7 +337,7 @@ def Obj.moveAssign (_a b : Obj) : Obj × Obj := (b, ⟨none⟩)
 
 /-! ## Laws -/
 
-theorem prefix_split {p q A B : Bytes} (h : p ++ q = A ++ B) (hq : q ≠ []) :
+theorem prefix_split {p q A B : Bytes} (h : p ++ q = A ++ B) (_hq : q ≠ []) :
     (∃ a, a ≠ [] ∧ p ++ a = A) ∨ (∃ c, p = A ++ c ∧ c ++ q = B) := by
   rcases List.append_eq_append_iff.mp h with ⟨a, hA, hq'⟩ | ⟨c, hp, hB⟩
   · by_cases ha : a = []
@@ -393,6 +400,15 @@ theorem lawful_scalar32 (tag : Nat) : Lawful (scalar32 tag) (fun _ => True) wher
     rcases p with _ | ⟨a, _ | ⟨b, _ | ⟨c, _ | ⟨d, _ | ⟨e, _ | ⟨f, p⟩⟩⟩⟩⟩⟩ <;>
       simp_all [scalar32, checkType, getU8, getU32]
 
+theorem lawful_nat32 : Lawful nat32 (fun n => n < 4294967296) where
+  roundtrip v rest hv := by
+    have : v < 4294967296 := hv
+    simp [nat32, be32, checkType, getU8, getU32]; omega
+  prefixFree v p q _ h hq := by
+    simp only [nat32, be32] at h
+    rcases p with _ | ⟨a, _ | ⟨b, _ | ⟨c, _ | ⟨d, _ | ⟨e, _ | ⟨f, p⟩⟩⟩⟩⟩⟩ <;>
+      simp_all [nat32, checkType, getU8, getU32]
+
 theorem lawful_scalar64 (tag : Nat) : Lawful (scalar64 tag) (fun _ => True) where
   roundtrip v rest _ := by
     have := v.toNat_lt
@@ -419,7 +435,7 @@ theorem lawful_strHdr : Lawful strHdr (fun n => n < 4294967296) where
       · simp [getU8]; omega
       · split
         · simp [getU8, getU16, be16]; omega
-        · simp [hn', getU8, getU32, be32]; omega
+        · simp [getU8, getU32, be32]; omega
   prefixFree n p q hn h hq := by
     simp only [strHdr, strHeader] at h
     simp only [strHdr, decStrHeader]
@@ -439,7 +455,7 @@ theorem lawful_binHdr : Lawful binHdr (fun n => n < 4294967296) where
     · simp [getU8]; omega
     · split
       · simp [getU8, getU16, be16]; omega
-      · simp [hn', getU8, getU32, be32]; omega
+      · simp [getU8, getU32, be32]; omega
   prefixFree n p q hn h hq := by
     simp only [binHdr, binHeader] at h
     simp only [binHdr, decBinHeader]
@@ -457,7 +473,7 @@ theorem lawful_arrHdr : Lawful arrHdr (fun n => n < 4294967296) where
     · rename_i h; have := fixarr_bits n h; simp [getU8, this.1, this.2]
     · split
       · simp [getU8, getU16, be16]; omega
-      · simp [hn', getU8, getU32, be32]; omega
+      · simp [getU8, getU32, be32]; omega
   prefixFree n p q hn h hq := by
     simp only [arrHdr, arrHeader] at h
     simp only [arrHdr, decArrHeader]
@@ -475,7 +491,7 @@ theorem lawful_mapHdr : Lawful mapHdr (fun n => n < 4294967296) where
     · rename_i h; have := fixmap_bits n h; simp [getU8, this.1, this.2]
     · split
       · simp [getU8, getU16, be16]; omega
-      · simp [hn', getU8, getU32, be32]; omega
+      · simp [getU8, getU32, be32]; omega
   prefixFree n p q hn h hq := by
     simp only [mapHdr, mapHeader] at h
     simp only [mapHdr, decMapHeader]
@@ -551,7 +567,7 @@ theorem lawful_extHdr : Lawful extHdr (fun x => x.1 < 4294967296) where
               · simp [getU8]; omega
     · split
       · simp [getU8, getU16, be16]; omega
-      · simp [hn', getU8, getU32, be32]; omega
+      · simp [getU8, getU32, be32]; omega
   prefixFree x p q hn h hq := by
     obtain ⟨n, ty⟩ := x
     simp only [extHdr, extHeader] at h
